@@ -105,9 +105,14 @@ theorem C17_placement (T : Template K) (I : Inst K) :
 /-- **Results differ only by placement.** Collapsing the same template with the same instance
 parameters at `P₁` and at `P₂` gives results related by the relative placement `P₁⁻¹ ≫ P₂`. -/
 theorem C17_repeat (T : Template K) (I : Inst K) (P₁ P₂ : Placement K)
-    (h₁ : Orth P₁.R) (h₁' : Orth P₁.R.transpose) (h₂ : Orth P₂.R) :
+    (h₁ : Orth P₁.R) (h₂ : Orth P₂.R) :
     collapse T (I.at P₂) = mapGeometry (P₁.inv.comp P₂) (collapse T (I.at P₁)) :=
-  collapse_two_placements T I P₁ P₂ h₁ h₁' h₂
+  collapse_two_placements T I P₁ P₂ h₁ h₂
+
+/-- `R·Rᵀ = 1` already gives `Rᵀ·R = 1` over any commutative ring (the inverse placement
+`q ↦ (q − o)·Rᵀ` really undoes the placement). -/
+theorem C17_orth_transpose {K : Type} [CommRing K] (R : M3 K) (h : Orth R) : Orth R.transpose :=
+  h.transpose
 
 /-- Names, output targets and nested fixups do not depend on the placement. -/
 theorem C17_names_placement_free (T : Template K) (I : Inst K) (P Q : Placement K) :
